@@ -138,3 +138,17 @@ PROPS["C16"] = {
         {"name": "fb-w64", "world": "W64", "src": "props/C16_fb.c"},
     ],
 }
+
+PROPS["C10"] = {
+    "level": "model_checking",
+    "technique": "explicit-state enumeration of complete quadratic and cubic extensions of tiny prime fields (every element of F_p^2 for p in {257, 263, 331, 1009}, F_p^3 for p = 331) and alphabet products for every tower up to degree 54 at 16-bit and 256-bit primes, against a generic polynomial-quotient-ring reference whose tower constants are read from the library and validated to define fields",
+    "level_text": "Every element of F_p^2 (p = 257, 263, 331, 1009: up to 10^6 states each) through negation, doubling, every squaring variant, multiplication by the adjoined root, inversion (a * inv(a) = 1 by reference multiplication, zero refused), square root and quadratic-residuosity (Euler criterion in the quotient ring), Frobenius powers 0..N; pairs against structured operands through every add/sub/mul variant and alias pattern; F_p^3 for p = 331 (every 7th element quick, all 3.6*10^7 thorough). Towers of degree 4, 6, 8, 9, 12, 16, 18, 24, 48, 54: per-coefficient alphabet {0, 1, p-1, 2, (p-1)/2, dense} in all positions (all vectors for N <= 4, <= 2 non-default positions over zero and dense defaults above, all-(p-1) for maximal lazy-reduction accumulators) through the same operations, exponentiation incl. 0, negative, p, 300-bit, and the fp12 cyclotomic family (conv_cyc, test_cyc, sqr_cyc, inv_cyc, exp_cyc, compressed squaring + decompression) at both 256-bit pairing primes (BN_256, SM9_256).",
+    "level_note": "Trusted: ref_ext.h; the gamma of each level is the library's own X^d and is validated by the reference (X^d - gamma irreducible), towers failing the validation for a prime are reported as not-a-field and skipped. Not yet covered: mul_dxs sparse forms, unreduced mul_unr outputs, exp_cyc_sps/gls/sim, fp18+ cyclotomic families, pck/upk (those are exercised indirectly through the pairing checks C04/C12).",
+    "rule": "cases are (prime, tower, operation group, elements); tiny worlds: complete element spaces by odometer, alphabets above; all non-trivial; distinct by 64-bit hash; states = elements of the complete spaces; transitions = individual results compared.",
+    "assumptions": ["reference quotient-ring arithmetic in ref_ext.h", "calls inside RLC_TRY"],
+    "jobs": [
+        {"name": "fpx-w8", "world": "W8", "src": "props/C10_fpx.c", "share": 0.5},
+        {"name": "fpx-w64", "world": "W64", "src": "props/C10_fpx.c"},
+        {"name": "fpx-w64-381", "world": "W64-381", "src": "props/C10_fpx.c", "tiers": ("thorough",)},
+    ],
+}
